@@ -120,7 +120,7 @@ Proof.
   - subst. gtac G.
   - subst. gtac G.
   - subst. gtac G.
-  - destruct St as [_ ->]. gtac G.
+  - destruct St as [_ [_ ->]]. gtac G.
   - destruct St as (c' & _ & [-> | ->]); gtac G.
   - subst. gtac G.
   - destruct St as [_ ->]. gtac G.
